@@ -395,6 +395,24 @@ func cellOf(addr ssa.Value) *ssa.Alloc {
 				return nil
 			}
 			addr = b
+		case *ssa.Parameter:
+			// a cell handed to a private helper by address: the helper's only call site names the cell
+			if curProg == nil {
+				return nil
+			}
+			if b, ok := curProg.boundRecv[x]; ok {
+				addr = b
+				continue
+			}
+			sites := curProg.callers[x.Parent()]
+			idx := paramIndex(x)
+			if len(sites) != 1 || idx < 0 || idx >= len(sites[0].Call.Common().Args) {
+				return nil
+			}
+			if _, isPtr := x.Type().Underlying().(*types.Pointer); !isPtr {
+				return nil
+			}
+			addr = sites[0].Call.Common().Args[idx]
 		default:
 			return nil
 		}
@@ -402,27 +420,61 @@ func cellOf(addr ssa.Value) *ssa.Alloc {
 	return nil
 }
 
-// cellStores lists every Store whose address is the cell, in the allocating function and in
-// every closure that captures it (transitively).
-func cellStores(cell *ssa.Alloc) []*ssa.Store {
-	var out []*ssa.Store
+// cellAliases: every address value that denotes the cell — the Alloc, the free variables of closures capturing it, and
+// the pointer parameters of module helpers it is passed to.
+var aliasDepth int
+
+func cellAliases(cell *ssa.Alloc) []ssa.Value {
+	aliasDepth++
+	defer func() { aliasDepth-- }()
+	if aliasDepth > 4 {
+		return []ssa.Value{cell}
+	}
+	var out []ssa.Value
+	seen := map[ssa.Value]bool{}
 	var visit func(addr ssa.Value)
 	visit = func(addr ssa.Value) {
+		if seen[addr] {
+			return
+		}
+		seen[addr] = true
+		out = append(out, addr)
 		refs := addr.Referrers()
 		if refs == nil {
 			return
 		}
 		for _, r := range *refs {
 			switch x := r.(type) {
-			case *ssa.Store:
-				if x.Addr == addr {
-					out = append(out, x)
-				}
 			case *ssa.MakeClosure:
 				g := x.Fn.(*ssa.Function)
+				if curProg != nil {
+					if m := curProg.boundMethod[g]; m != nil && len(x.Bindings) == 1 && x.Bindings[0] == addr {
+						visit(m.Params[0]) // bound method value: the receiver inside the method is this address
+						continue
+					}
+				}
 				for i, bnd := range x.Bindings {
 					if bnd == addr && i < len(g.FreeVars) {
 						visit(g.FreeVars[i])
+					}
+				}
+			case *ssa.Store:
+				// the address itself kept in a local (a captured pointer parameter is spilled): loads of that local alias it
+				if x.Val == addr {
+					if holder, ok := x.Addr.(*ssa.Alloc); ok && holder != cell && len(seen) < 64 {
+						for _, ld := range cellLoads(holder) {
+							visit(ld)
+						}
+					}
+				}
+			case ssa.CallInstruction:
+				cal := x.Common().StaticCallee()
+				if cal == nil || cal.Blocks == nil || curProg == nil || !curProg.InModule(cal) || x.Common().IsInvoke() {
+					continue
+				}
+				for i, a := range x.Common().Args {
+					if a == addr && i < len(cal.Params) {
+						visit(cal.Params[i])
 					}
 				}
 			}
@@ -432,32 +484,34 @@ func cellStores(cell *ssa.Alloc) []*ssa.Store {
 	return out
 }
 
-// cellLoads lists every load (*cell) in the allocating function and capturing closures.
-func cellLoads(cell *ssa.Alloc) []*ssa.UnOp {
-	var out []*ssa.UnOp
-	var visit func(addr ssa.Value)
-	visit = func(addr ssa.Value) {
-		refs := addr.Referrers()
-		if refs == nil {
-			return
-		}
-		for _, r := range *refs {
-			switch x := r.(type) {
-			case *ssa.UnOp:
-				if x.Op == token.MUL && x.X == addr {
-					out = append(out, x)
-				}
-			case *ssa.MakeClosure:
-				g := x.Fn.(*ssa.Function)
-				for i, bnd := range x.Bindings {
-					if bnd == addr && i < len(g.FreeVars) {
-						visit(g.FreeVars[i])
-					}
+// cellStores lists every Store whose address is the cell, in the allocating function and in
+// every closure that captures it (transitively).
+func cellStores(cell *ssa.Alloc) []*ssa.Store {
+	var out []*ssa.Store
+	for _, addr := range cellAliases(cell) {
+		if refs := addr.Referrers(); refs != nil {
+			for _, r := range *refs {
+				if st, ok := r.(*ssa.Store); ok && st.Addr == addr {
+					out = append(out, st)
 				}
 			}
 		}
 	}
-	visit(cell)
+	return out
+}
+
+// cellLoads lists every load (*cell) in the allocating function, capturing closures and helpers it is passed to.
+func cellLoads(cell *ssa.Alloc) []*ssa.UnOp {
+	var out []*ssa.UnOp
+	for _, addr := range cellAliases(cell) {
+		if refs := addr.Referrers(); refs != nil {
+			for _, r := range *refs {
+				if x, ok := r.(*ssa.UnOp); ok && x.Op == token.MUL && x.X == addr {
+					out = append(out, x)
+				}
+			}
+		}
+	}
 	return out
 }
 
@@ -468,6 +522,14 @@ func resolve(v ssa.Value) ssa.Value {
 		switch x := v.(type) {
 		case *ssa.UnOp:
 			if x.Op != token.MUL {
+				return v
+			}
+			if _, isField := x.X.(*ssa.FieldAddr); isField {
+				// field of a local struct / parameter struct with exactly one origin
+				if os, ok := fieldOrigins(x, 0); ok && len(os) == 1 {
+					v = os[0].V
+					continue
+				}
 				return v
 			}
 			cell := cellOf(x.X)
@@ -733,6 +795,39 @@ func derivesFrom(v, src ssa.Value) bool {
 			}
 			return false
 		}
+		if u, ok := x.(*ssa.UnOp); ok && u.Op == token.MUL {
+			if _, isField := u.X.(*ssa.FieldAddr); isField {
+				if os, ok := fieldOrigins(u, 0); ok && len(os) > 0 {
+					for _, o := range os {
+						if walk(o.V, d+1) {
+							return true
+						}
+					}
+					return false
+				}
+			}
+		}
+		if prm, ok := x.(*ssa.Parameter); ok {
+			// a helper's parameter derives from src when the argument does at every call site
+			if curProg == nil {
+				return false
+			}
+			sites := curProg.callers[prm.Parent()]
+			idx := paramIndex(prm)
+			if len(sites) == 0 || idx < 0 {
+				return false
+			}
+			for _, cs := range sites {
+				args := cs.Call.Common().Args
+				if idx >= len(args) {
+					return false
+				}
+				if !walk(args[idx], d+1) {
+					return false
+				}
+			}
+			return true
+		}
 		if al, ok := x.(*ssa.Alloc); ok {
 			// a local struct/array copy: whole-value stores and element/field stores
 			for _, st := range cellStores(al) {
@@ -773,4 +868,217 @@ func derivesFrom(v, src ssa.Value) bool {
 		return false
 	}
 	return walk(v, 0)
+}
+
+// funcValuesOf resolves a function-typed value to the module functions it can denote: a closure, a named function,
+// a bound method, or the result of a module helper that returns one of those on every return.
+func funcValuesOf(v ssa.Value, d int) []*ssa.Function {
+	if v == nil || d > 4 {
+		return nil
+	}
+	switch x := resolve(v).(type) {
+	case *ssa.MakeClosure:
+		if f, ok := x.Fn.(*ssa.Function); ok {
+			return []*ssa.Function{f}
+		}
+	case *ssa.Function:
+		return []*ssa.Function{x}
+	case *ssa.Call:
+		cal := x.Call.StaticCallee()
+		if cal == nil || cal.Blocks == nil || curProg == nil || !curProg.InModule(cal) {
+			return nil
+		}
+		var out []*ssa.Function
+		for _, r := range returnsOf(cal) {
+			if len(r.Results) != 1 {
+				return nil
+			}
+			fs := funcValuesOf(returnedValue(r, 0), d+1)
+			if len(fs) == 0 {
+				return nil
+			}
+			out = append(out, fs...)
+		}
+		return out
+	case *ssa.ChangeType:
+		return funcValuesOf(x.X, d+1)
+	}
+	return nil
+}
+
+// ---------------------------------------------------------------- struct fields as value carriers
+
+// originVal is a value that may flow into a location, with the instruction at which it is handed over.
+type originVal struct {
+	V  ssa.Value
+	At ssa.Instruction
+}
+
+// fieldOrigins: v is a read of field i of a struct (load of &A.f, or Field(X,i)); returns every value that can have been
+// stored into that field: field stores on the local struct, and - when the struct is a by-value parameter (a parameter
+// struct such as newItemSpec) or the result of a module constructor - the field of the composite literal built by each
+// caller / return. ok=false when some origin cannot be followed (escaping address, external call).
+func fieldOrigins(v ssa.Value, d int) ([]originVal, bool) {
+	if d > 6 {
+		return nil, false
+	}
+	switch x := strip(v).(type) {
+	case *ssa.UnOp:
+		if x.Op != token.MUL {
+			return nil, false
+		}
+		fa, ok := x.X.(*ssa.FieldAddr)
+		if !ok {
+			return nil, false
+		}
+		return fieldOfAddr(fa.X, fa.Field, x, d)
+	case *ssa.Field:
+		return fieldOfStructValue(x.X, x.Field, x, d)
+	}
+	return nil, false
+}
+
+// fieldOfAddr: origins of field i of the struct stored at address base.
+func fieldOfAddr(base ssa.Value, i int, at ssa.Instruction, d int) ([]originVal, bool) {
+	if d > 6 {
+		return nil, false
+	}
+	al, ok := base.(*ssa.Alloc)
+	if !ok {
+		if u, isLoad := base.(*ssa.UnOp); isLoad && u.Op == token.MUL {
+			// pointer kept in a local: follow single-store cells
+			if r := resolve(u); r != ssa.Value(u) {
+				return fieldOfAddr(r, i, at, d+1)
+			}
+		}
+		if fv, isFV := base.(*ssa.FreeVar); isFV {
+			if b := bindingOf(fv); b != nil {
+				return fieldOfAddr(b, i, at, d+1)
+			}
+		}
+		if prm, isPrm := base.(*ssa.Parameter); isPrm && curProg != nil {
+			if b, ok := curProg.boundRecv[prm]; ok {
+				return fieldOfAddr(b, i, at, d+1)
+			}
+			// pointer parameter of a private helper with one call site
+			if sites := curProg.callers[prm.Parent()]; len(sites) == 1 {
+				if idx := paramIndex(prm); idx >= 0 && idx < len(sites[0].Call.Common().Args) {
+					return fieldOfAddr(sites[0].Call.Common().Args[idx], i, at, d+1)
+				}
+			}
+		}
+		return nil, false
+	}
+	var out []originVal
+	for _, addr := range cellAliases(al) {
+		refs := addr.Referrers()
+		if refs == nil {
+			continue
+		}
+		for _, r := range *refs {
+			switch y := r.(type) {
+			case *ssa.FieldAddr:
+				if y.Field != i || y.Referrers() == nil {
+					continue
+				}
+				for _, u := range *y.Referrers() {
+					switch z := u.(type) {
+					case *ssa.Store:
+						if z.Addr == ssa.Value(y) {
+							out = append(out, originVal{z.Val, z})
+						}
+					case *ssa.UnOp, *ssa.DebugRef:
+					default:
+						return nil, false // address of the field escapes
+					}
+				}
+			case *ssa.Store:
+				if y.Addr != addr {
+					if _, isHolder := y.Addr.(*ssa.Alloc); isHolder {
+						continue // pointer spilled into a local: handled by cellAliases
+					}
+					return nil, false
+				}
+				sub, ok := fieldOfStructValue(y.Val, i, y, d+1)
+				if !ok {
+					return nil, false
+				}
+				out = append(out, sub...)
+			case *ssa.UnOp, *ssa.DebugRef, *ssa.MakeClosure:
+			case ssa.CallInstruction:
+				cal := y.Common().StaticCallee()
+				if cal == nil || curProg == nil || !curProg.InModule(cal) {
+					return nil, false // handed to code we do not see
+				}
+			default:
+				return nil, false
+			}
+		}
+	}
+	return out, true
+}
+
+// fieldOfStructValue: origins of field i of the struct value w.
+func fieldOfStructValue(w ssa.Value, i int, at ssa.Instruction, d int) ([]originVal, bool) {
+	if d > 6 {
+		return nil, false
+	}
+	switch x := strip(w).(type) {
+	case *ssa.Const:
+		return nil, true // zero value: the field holds its zero value (no origin)
+	case *ssa.UnOp:
+		if x.Op == token.MUL {
+			return fieldOfAddr(x.X, i, at, d+1)
+		}
+	case *ssa.Parameter:
+		if curProg == nil {
+			return nil, false
+		}
+		sites := curProg.callers[x.Parent()]
+		idx := paramIndex(x)
+		if len(sites) == 0 || idx < 0 {
+			return nil, false
+		}
+		var out []originVal
+		for _, cs := range sites {
+			args := cs.Call.Common().Args
+			if idx >= len(args) {
+				return nil, false
+			}
+			sub, ok := fieldOfStructValue(args[idx], i, cs.Call, d+1)
+			if !ok {
+				return nil, false
+			}
+			out = append(out, sub...)
+		}
+		return out, true
+	case *ssa.Phi:
+		var out []originVal
+		for _, e := range x.Edges {
+			sub, ok := fieldOfStructValue(e, i, at, d+1)
+			if !ok {
+				return nil, false
+			}
+			out = append(out, sub...)
+		}
+		return out, true
+	case *ssa.Call:
+		cal := x.Call.StaticCallee()
+		if cal == nil || cal.Blocks == nil || curProg == nil || !curProg.InModule(cal) {
+			return nil, false
+		}
+		var out []originVal
+		for _, r := range returnsOf(cal) {
+			if len(r.Results) != 1 {
+				return nil, false
+			}
+			sub, ok := fieldOfStructValue(returnedValue(r, 0), i, r, d+1)
+			if !ok {
+				return nil, false
+			}
+			out = append(out, sub...)
+		}
+		return out, true
+	}
+	return nil, false
 }
